@@ -716,3 +716,259 @@ Proof.
     assert (Ht : filter (fun _ : fent => true) (w_fs w) = w_fs w) by (generalize (w_fs w); intros l; induction l as [|a l IHl]; simpl; [reflexivity | now rewrite IHl]).
     rewrite Ht in H. apply H; auto. rewrite Epe. apply under_irrefl.
 Qed.
+
+(* ================================================================== the watch invariant and Cover *)
+Lemma find_none_iff {A} (f : A -> bool) l : find f l = None <-> forall x, In x l -> f x = false.
+Proof.
+  induction l as [|a l IH]; simpl; [split; [intros _ x [] | reflexivity]|].
+  destruct (f a) eqn:E.
+  - split; [discriminate | intros H; specialize (H a (or_introl eq_refl)); congruence].
+  - rewrite IH. split; [intros H x [<-|Hx]; auto | intros H x Hx; apply H; now right].
+Qed.
+
+Lemma find_app {A} (f : A -> bool) l1 l2 : find f (l1 ++ l2) = match find f l1 with Some x => Some x | None => find f l2 end.
+Proof. induction l1 as [|a l1 IH]; simpl; [reflexivity|]. destruct (f a); [reflexivity | exact IH]. Qed.
+
+Lemma find_unique {A B} (g : A -> B) (f : A -> bool) l x :
+  NoDup (map g l) -> (forall a b, f a = true -> f b = true -> g a = g b) -> In x l -> f x = true -> find f l = Some x.
+Proof.
+  intros Hnd Hf. induction l as [|a l IH]; simpl; intros Hin Hx; [contradiction|].
+  inversion Hnd; subst. destruct (f a) eqn:E.
+  - destruct Hin as [->|Hin]; [reflexivity|]. exfalso. apply H1. rewrite (Hf a x E Hx). now apply in_map.
+  - destruct Hin as [->|Hin]; [congruence|]. now apply IH.
+Qed.
+
+Lemma watch_of_ino_in k i kw : NoDup (map kw_ino (k_watches k)) -> In kw (k_watches k) -> kw_ino kw = i ->
+  watch_of_ino k i = Some kw.
+Proof.
+  intros Hnd Hin E. unfold watch_of_ino. apply (find_unique kw_ino); try assumption.
+  - intros a b Ha Hb. apply N.eqb_eq in Ha, Hb. congruence.
+  - now apply N.eqb_eq.
+Qed.
+
+Lemma watch_of_ino_some k i kw : watch_of_ino k i = Some kw -> In kw (k_watches k) /\ kw_ino kw = i.
+Proof. unfold watch_of_ino. intros H. apply find_some in H as [H1 H2]. apply N.eqb_eq in H2. now split. Qed.
+
+Lemma ino_inj w a b : wf_fs w -> In a (w_fs w) -> In b (w_fs w) -> f_ino a = f_ino b -> a = b.
+Proof.
+  intros W. generalize (wf_inos w W). generalize (w_fs w). intros t. induction t as [|x t IH]; simpl; intros Hnd Ha Hb E; [contradiction|].
+  inversion Hnd; subst. destruct Ha as [->|Ha], Hb as [->|Hb]; auto.
+  - exfalso. apply H1. rewrite E. now apply in_map.
+  - exfalso. apply H1. rewrite <- E. now apply in_map.
+Qed.
+
+Lemma alookup_aset_same_w p (wd : N) m x : alookup beqb p m = Some wd -> alookup beqb x (aset beqb p wd m) = alookup beqb x m.
+Proof.
+  intros H. destruct (bytes_eq_dec x p) as [->|Hne]; [now rewrite wset_eq | now apply wset_neq].
+Qed.
+Lemma alookup_aset_same_p wd (p : bytes) m x : alookup N.eqb wd m = Some p -> alookup N.eqb x (aset N.eqb wd p m) = alookup N.eqb x m.
+Proof.
+  intros H. destruct (N.eq_dec x wd) as [->|Hne]; [now rewrite pset_eq | now apply pset_neq].
+Qed.
+
+Section Cover.
+  Variable C : cfg.
+  Hypothesis Hfaults : c_faults C = [].
+  Let root := c_root C.
+
+  Definition scope (p : bytes) : Prop :=
+    if c_recursive C then (p = root \/ under root p = true) else p = root.
+
+  Definition cov (k : kst) (r : rstate) (e : fent) (kw : kwatch) : Prop :=
+    watch_of_ino k (f_ino e) = Some kw /\
+    alookup N.eqb (kw_wd kw) (pfw r) = Some (f_path e) /\
+    alookup beqb (f_path e) (wfp r) = Some (kw_wd kw).
+
+  (* C02: every directory in scope carries a kernel watch whose recorded path is its current path *)
+  Definition Cover (t : fs) (k : kst) (r : rstate) : Prop :=
+    forall e, In e t -> f_dir e = true -> scope (f_path e) -> exists kw, cov k r e kw.
+
+  Record WInv (t : fs) (k : kst) (r : rstate) : Prop := {
+    wi_lt : forall kw, In kw (k_watches k) -> (kw_wd kw < k_next_wd k)%N;
+    wi_wds : NoDup (map kw_wd (k_watches k));
+    wi_inos : NoDup (map kw_ino (k_watches k));
+    wi_mask : forall kw, In kw (k_watches k) -> kw_mask kw = c_mask C;
+    (* no stale kernel watch: every watch is the cover of a directory in scope *)
+    wi_exact : forall kw, In kw (k_watches k) ->
+      exists e, In e t /\ f_dir e = true /\ scope (f_path e) /\ f_ino e = kw_ino kw /\
+                alookup N.eqb (kw_wd kw) (pfw r) = Some (f_path e) /\
+                alookup beqb (f_path e) (wfp r) = Some (kw_wd kw);
+    (* no stale key in _wd_for_path *)
+    wi_tight : forall x wd, alookup beqb x (wfp r) = Some wd ->
+      (exists kw, In kw (k_watches k) /\ kw_wd kw = wd) /\ alookup N.eqb wd (pfw r) = Some x;
+    wi_mvf : forall c x, alookup N.eqb c (mvf r) = Some x -> (c < k_next_cookie k)%N
+  }.
+
+  Lemma wd_inj k a b : NoDup (map kw_wd (k_watches k)) -> In a (k_watches k) -> In b (k_watches k) ->
+    kw_wd a = kw_wd b -> a = b.
+  Proof.
+    generalize (k_watches k). intros l. induction l as [|x l IH]; simpl; intros Hnd Ha Hb E; [contradiction|].
+    inversion Hnd; subst. destruct Ha as [->|Ha], Hb as [->|Hb]; auto.
+    - exfalso. apply H1. rewrite E. now apply in_map.
+    - exfalso. apply H1. rewrite <- E. now apply in_map.
+  Qed.
+
+  (* a key of _wd_for_path is the path of a directory in scope, covered by that wd *)
+  Lemma tight_entry w k r x wd : WInv (w_fs w) k r -> alookup beqb x (wfp r) = Some wd ->
+    exists e kw, In e (w_fs w) /\ f_dir e = true /\ scope (f_path e) /\ f_path e = x /\
+                 In kw (k_watches k) /\ kw_wd kw = wd /\ kw_ino kw = f_ino e.
+  Proof.
+    intros I H. destruct (wi_tight _ _ _ I x wd H) as ((kw & Hkw & Ewd) & Hp).
+    destruct (wi_exact _ _ _ I kw Hkw) as (e & He & De & Se & Ie & Pe & We).
+    rewrite Ewd in Pe. exists e, kw. repeat split; try assumption; congruence.
+  Qed.
+
+  Lemma add_watch_ok w k r e : wf_fs w -> WInv (w_fs w) k r -> In e (w_fs w) -> f_dir e = true -> scope (f_path e) ->
+    exists r' k' wd, add_watch C r k (w_fs w) (f_path e) = Some (r', k', wd) /\
+      WInv (w_fs w) k' r' /\ k_queue k' = k_queue k /\ k_next_cookie k' = k_next_cookie k /\ mvf r' = mvf r /\
+      (exists kw, cov k' r' e kw /\ kw_wd kw = wd) /\
+      (forall e0 kw0, In e0 (w_fs w) -> cov k r e0 kw0 -> cov k' r' e0 kw0) /\
+      (forall x, x <> f_path e -> alookup beqb x (wfp r') = alookup beqb x (wfp r)).
+  Proof.
+    intros W I He De Se. unfold add_watch. rewrite Hfaults. cbn [mem_nat].
+    unfold kadd_watch. rewrite (flookup_in _ e (wf_paths w W) He).
+    destruct (watch_of_ino k (f_ino e)) as [kw|] eqn:Ew.
+    - (* already watched: nothing changes *)
+      destruct (watch_of_ino_some _ _ _ Ew) as [Hkw Ei].
+      destruct (wi_exact _ _ _ I kw Hkw) as (e' & He' & De' & Se' & Ie' & Pe' & We').
+      assert (e' = e) by (apply (ino_inj w); try assumption; congruence). subst e'.
+      assert (Hmap : map (fun x => if N.eqb (kw_wd x) (kw_wd kw)
+                                   then {| kw_wd := kw_wd x; kw_ino := kw_ino x; kw_mask := c_mask C |} else x)
+                         (k_watches k) = k_watches k).
+      { rewrite <- (map_id (k_watches k)) at 2. apply map_ext_in. intros x Hx.
+        destruct (N.eqb (kw_wd x) (kw_wd kw)); [|reflexivity].
+        rewrite <- (wi_mask _ _ _ I x Hx). now destruct x. }
+      eexists _, _, _. split; [reflexivity|]. cbn [wfp pfw mvf calls k_queue k_next_cookie].
+      assert (Lw := fun x => alookup_aset_same_w _ _ (wfp r) x We').
+      assert (Lp := fun x => alookup_aset_same_p _ _ (pfw r) x Pe').
+      split; [|split; [reflexivity|split; [reflexivity|split; [reflexivity|split; [|split]]]]].
+      + constructor; cbn [k_watches k_next_wd k_next_cookie wfp pfw mvf]; rewrite ?Hmap; try apply I.
+        * intros kw0 H0. destruct (wi_exact _ _ _ I kw0 H0) as (e0 & ? & ? & ? & ? & ? & ?).
+          exists e0. rewrite Lw, Lp. repeat split; assumption.
+        * intros x wd. rewrite Lw, Lp. apply I.
+      + exists kw. split; [|reflexivity]. unfold cov, watch_of_ino. cbn [k_watches wfp pfw]. rewrite Hmap, Lw, Lp.
+        repeat split; assumption.
+      + intros e0 kw0 _ (H1 & H2 & H3). unfold cov, watch_of_ino in *. cbn [k_watches wfp pfw]. rewrite Hmap, Lw, Lp.
+        repeat split; assumption.
+      + intros x _. apply Lw.
+    - (* a new watch *)
+      assert (Hnone : forall x, In x (k_watches k) -> kw_ino x <> f_ino e).
+      { intros x Hx. unfold watch_of_ino in Ew. rewrite find_none_iff in Ew. apply Ew in Hx. now apply N.eqb_neq in Hx. }
+      eexists _, _, _. split; [reflexivity|]. cbn [wfp pfw mvf calls k_queue k_next_cookie].
+      set (nw := {| kw_wd := k_next_wd k; kw_ino := f_ino e; kw_mask := c_mask C |}).
+      assert (Hold : forall kw0, In kw0 (k_watches k) -> kw_wd kw0 <> k_next_wd k).
+      { intros kw0 H0. apply (wi_lt _ _ _ I) in H0. lia. }
+      assert (Hcov : forall e0 kw0, In e0 (w_fs w) -> cov k r e0 kw0 ->
+                cov {| k_watches := k_watches k ++ [nw]; k_next_wd := k_next_wd k + 1; k_queue := k_queue k;
+                       k_next_cookie := k_next_cookie k |}
+                    {| wfp := aset beqb (f_path e) (k_next_wd k) (wfp r); pfw := aset N.eqb (k_next_wd k) (f_path e) (pfw r);
+                       mvf := mvf r; calls := S (calls r) |} e0 kw0).
+      { intros e0 kw0 He0 (H1 & H2 & H3). destruct (watch_of_ino_some _ _ _ H1) as [Hk0 Ei0].
+        unfold cov, watch_of_ino. cbn [k_watches wfp pfw].
+        rewrite find_app. fold (watch_of_ino k (f_ino e0)). rewrite H1.
+        rewrite pset_neq by now apply Hold. rewrite wset_neq; [repeat split; assumption|].
+        intros E. assert (e0 = e) by (apply (path_inj (w_fs w)); [apply W| | |]; assumption). subst e0.
+        apply (Hnone kw0); assumption. }
+      split; [|split; [reflexivity|split; [reflexivity|split; [reflexivity|split; [|split]]]]].
+      + constructor; cbn [k_watches k_next_wd k_next_cookie wfp pfw mvf].
+        * intros kw0 H0. apply in_app_iff in H0 as [H0|[<-|[]]]; [apply (wi_lt _ _ _ I) in H0|cbn]; lia.
+        * rewrite map_app. apply NoDup_snoc; [apply I|]. cbn. intros Hin. apply in_map_iff in Hin as (x & Ex & Hx).
+          now apply (Hold x).
+        * rewrite map_app. apply NoDup_snoc; [apply I|]. cbn. intros Hin. apply in_map_iff in Hin as (x & Ex & Hx).
+          now apply (Hnone x).
+        * intros kw0 H0. apply in_app_iff in H0 as [H0|[<-|[]]]; [now apply (wi_mask _ _ _ I) | reflexivity].
+        * intros kw0 H0. apply in_app_iff in H0 as [H0|[<-|[]]].
+          -- destruct (wi_exact _ _ _ I kw0 H0) as (e0 & He0 & D0 & S0 & I0 & P0 & W0).
+             exists e0. repeat split; try assumption.
+             ++ now rewrite pset_neq by now apply Hold.
+             ++ rewrite wset_neq; [assumption|]. intros E.
+                assert (e0 = e) by (apply (path_inj (w_fs w)); [apply W| | |]; assumption). subst e0.
+                now apply (Hnone kw0).
+          -- exists e. cbn. rewrite pset_eq, wset_eq. repeat split; assumption.
+        * intros x wd Hx. destruct (bytes_eq_dec x (f_path e)) as [->|Hne].
+          -- rewrite wset_eq in Hx. inversion Hx; subst wd. rewrite pset_eq. split; [|reflexivity].
+             exists nw. split; [apply in_app_iff; right; now left | reflexivity].
+          -- rewrite wset_neq in Hx by assumption. destruct (wi_tight _ _ _ I x wd Hx) as ((kw0 & Hk0 & E0) & Hp).
+             split; [exists kw0; split; [apply in_app_iff; now left | assumption]|].
+             rewrite pset_neq; [assumption|]. rewrite <- E0. now apply Hold.
+        * apply I.
+      + exists nw. split; [|reflexivity]. unfold cov, watch_of_ino. cbn [k_watches wfp pfw].
+        rewrite find_app. fold (watch_of_ino k (f_ino e)). rewrite Ew. cbn. rewrite N.eqb_refl.
+        rewrite pset_eq, wset_eq. now repeat split.
+      + exact Hcov.
+      + intros x Hx. now apply wset_neq.
+  Qed.
+
+  (* ------------------------------------------------------------------ installing watches for a list of directories *)
+  Definition Ext (t : fs) (k : kst) (r : rstate) (k' : kst) (r' : rstate) : Prop :=
+    k_queue k' = k_queue k /\ k_next_cookie k' = k_next_cookie k /\ mvf r' = mvf r /\
+    (forall e0 kw0, In e0 t -> cov k r e0 kw0 -> cov k' r' e0 kw0).
+
+  Lemma Ext_refl t k r : Ext t k r k r.
+  Proof. unfold Ext. auto. Qed.
+  Lemma Ext_trans t k1 r1 k2 r2 k3 r3 : Ext t k1 r1 k2 r2 -> Ext t k2 r2 k3 r3 -> Ext t k1 r1 k3 r3.
+  Proof. intros (A1 & A2 & A3 & A4) (B1 & B2 & B3 & B4). unfold Ext. split; [congruence|split; [congruence|split; [congruence|intros; auto]]]. Qed.
+
+  Definition cgo (t : fs) :=
+    fix go (r : rstate) (k : kst) (ps : list bytes) : option (rstate * kst) :=
+      match ps with
+      | [] => Some (r, k)
+      | p :: ps' => match add_watch C r k t p with
+                    | Some (r', k', _) => go r' k' ps'
+                    | None => None
+                    end
+      end.
+
+  Definition dir_in_scope (t : fs) (p : bytes) : Prop :=
+    exists e, In e t /\ f_path e = p /\ f_dir e = true /\ scope p.
+
+  Lemma cgo_ok w : wf_fs w -> forall ps k r, WInv (w_fs w) k r -> Forall (dir_in_scope (w_fs w)) ps ->
+    exists r' k', cgo (w_fs w) r k ps = Some (r', k') /\ add_dirs C r k (w_fs w) ps = (r', k') /\
+      WInv (w_fs w) k' r' /\ Ext (w_fs w) k r k' r' /\
+      (forall e, In e (w_fs w) -> In (f_path e) ps -> exists kw, cov k' r' e kw) /\
+      (forall x, ~ In x ps -> alookup beqb x (wfp r') = alookup beqb x (wfp r)).
+  Proof.
+    intros W. induction ps as [|p ps IH]; intros k r I Hps.
+    - exists r, k. split; [reflexivity|]. split; [reflexivity|]. split; [exact I|]. split; [apply Ext_refl|].
+      split; [intros e _ [] | reflexivity].
+    - inversion Hps as [|? ? (e & He & Ee & De & Se) Hps']; subst.
+      destruct (add_watch_ok w k r e W I He De Se) as (r1 & k1 & wd & Ha & I1 & Q1 & N1 & M1 & (kw & Ck & _) & P1 & L1).
+      destruct (IH k1 r1 I1 Hps') as (r2 & k2 & Hg & Hd & I2 & X2 & Cv & L2).
+      exists r2, k2. cbn [cgo add_dirs]. rewrite Ha. fold (cgo (w_fs w)). split; [exact Hg|]. split; [exact Hd|].
+      split; [exact I2|]. split; [|split].
+      + eapply Ext_trans; [|exact X2]. unfold Ext. auto.
+      + intros e0 He0 [E|Hin]; [|now apply Cv].
+        assert (e0 = e) by (apply (path_inj (w_fs w)); [apply W| | |]; congruence). subst e0.
+        exists kw. destruct X2 as (_ & _ & _ & X). now apply X.
+      + intros x Hx. rewrite L2 by (intros H; apply Hx; now right). apply L1. intros E. apply Hx. left. congruence.
+  Qed.
+
+  Lemma WInv_init t : WInv t kinit rinit0.
+  Proof. constructor; cbn; try constructor; try (intros ? []); try discriminate. Qed.
+
+  (* 2a: construct establishes the invariant and Cover *)
+  Theorem construct_cover w : wf_fs w -> fisdir root (w_fs w) = true ->
+    exists r k, construct C kinit (w_fs w) = Some (r, k) /\ WInv (w_fs w) k r /\ Cover (w_fs w) k r /\
+                k_queue k = [] /\ mvf r = [].
+  Proof.
+    intros W Hroot. unfold construct. fold root. rewrite Hroot.
+    destruct (fisdir_in _ _ Hroot) as (er & Her & Eer & Der).
+    assert (Sr : scope (f_path er)).
+    { unfold scope. rewrite Eer. destruct (c_recursive C); auto. }
+    destruct (add_watch_ok w kinit rinit0 er W (WInv_init _) Her Der Sr)
+      as (r1 & k1 & wd & Ha & I1 & Q1 & N1 & M1 & (kw & Ck & _) & P1 & _).
+    fold root in Ha. rewrite <- Eer, Ha. destruct (c_recursive C) eqn:Erec.
+    - assert (Hps : Forall (dir_in_scope (w_fs w)) (walk_dirs (w_fs w) (f_path er))).
+      { apply Forall_forall. intros x Hx. rewrite Eer in Hx. apply (walk_dirs_spec w root W Hroot) in Hx as (e & He & Ee & De & Ue).
+        exists e. repeat split; try assumption. unfold scope. rewrite Erec. now right. }
+      destruct (cgo_ok w W _ k1 r1 I1 Hps) as (r2 & k2 & Hg & _ & I2 & (Q2 & N2 & M2 & X2) & Cv & _).
+      exists r2, k2. fold (cgo (w_fs w)). split; [exact Hg|]. split; [exact I2|]. split; [|split; [rewrite Q2, Q1; reflexivity | rewrite M2, M1; reflexivity]].
+      intros e He De Se. unfold scope in Se. rewrite Erec in Se. destruct Se as [Se|Se].
+      + assert (e = er) by (apply (path_inj (w_fs w)); [apply W| | |]; congruence). subst e.
+        exists kw. now apply X2.
+      + apply Cv; [exact He|]. rewrite Eer. apply (walk_dirs_spec w root W Hroot). exists e. now repeat split.
+    - exists r1, k1. split; [reflexivity|]. split; [exact I1|]. split; [|split; [rewrite Q1; reflexivity | rewrite M1; reflexivity]].
+      intros e He De Se. unfold scope in Se. rewrite Erec in Se.
+      assert (e = er) by (apply (path_inj (w_fs w)); [apply W| | |]; congruence). subst e. now exists kw.
+  Qed.
+End Cover.
